@@ -117,7 +117,13 @@ static std::string checkOne(const FC &c, bool *nt = nullptr) {
     std::string t = libText(c);
     double v = c.isFloat ? (double) (float) c.v : c.v;
     if (nt) *nt = false;
-    bool custom = USE_CUSTOM_DTOSTRE || c.api == 2;
+#if defined(VF_LIB_USES_DTOSTRE) && VF_LIB_USES_DTOSTRE
+    if (v == 0 && std::signbit(v)) v = 0.0;     // a C90 library has no signbit(): minus zero is formatted as zero
+#endif
+#ifndef VF_LIB_USES_DTOSTRE
+#define VF_LIB_USES_DTOSTRE 0      /* set by the "ansi" configuration: the library, compiled as C90, finds no snprintf and formats with SCPI_dtostre */
+#endif
+    bool custom = USE_CUSTOM_DTOSTRE || VF_LIB_USES_DTOSTRE || c.api == 2;
     int prec = c.api == 2 ? c.prec : (c.isFloat ? 6 : 15);
     if (!std::isfinite(v)) {
         std::string exp = nonFinite(v);
@@ -125,6 +131,8 @@ static std::string checkOne(const FC &c, bool *nt = nullptr) {
             if (c.flags & 1) for (auto &ch : exp) ch = (char) toupper(ch);
             if (!std::signbit(v) && !std::isnan(v)) { if (c.flags & 4) exp = "+" + exp; else if (c.flags & 2) exp = " " + exp; }
         }
+        // a C90 library has no signbit(): the sign of a NaN is not seen there (the spelling is fixed, its sign is not a value)
+        if (VF_LIB_USES_DTOSTRE && std::isnan(v) && exp.size() > 1 && exp[0] == '-' && t == exp.substr(1)) return "";
         if (t != exp) return "non-finite value printed as '" + t + "', expected '" + exp + "': " + describe(c);
         return "";
     }
